@@ -218,8 +218,13 @@ Next ==
      THEN LET r == IF ln.op = "p" THEN PathStep(ln)
                    ELSE IF ln.op = "crash" THEN [st |-> lst, cs |-> <<Chk(FALSE, 0, "C11.crash", "no sanitizer report, no abort, no time-out", ln.why)>>]
                    ELSE [st |-> lst, cs |-> <<>>]
-          IN /\ Report(ln.x, r.cs)
-             /\ nv' = nv + Len(Failed(r.cs))
+              \* C11, whatever the call just made returned (also a refused or a wrongly accepted one): once a descriptor exists,
+              \* the values xcm_attr_get reports are the ones in force in the kernel
+              inf == IF ln.op = "p" /\ HasFd(r.st) /\ (\A i \in 1..5 : ln.k[i] >= 0 /\ ln.g[i] >= 0)
+                     THEN <<Chk(KernOf(ln.g) = ln.k, 15, "C11.in_force", <<"reported", ln.g>>, <<"kernel", ln.k>>)>> ELSE <<>>
+              allcs == r.cs \o inf
+          IN /\ Report(ln.x, allcs)
+             /\ nv' = nv + Len(Failed(allcs))
              /\ lst' = r.st
              /\ cnt' = PathCount(ln)
              /\ (l < NL \/ PrintT("@STAT " \o ToJson(PathCount(ln))))
